@@ -27,14 +27,14 @@ type Val struct {
 }
 
 type Gen struct {
-	r        *rand.Rand
-	maxDig   int // typical upper bound on digits
-	hugeDig  int // rare upper bound
-	tier     string
+	r           *rand.Rand
+	maxDig      int // typical upper bound on digits
+	hugeDig     int // rare upper bound
+	tier        string
 	minExpFloat bool // SetFloat cases use the smallest big.Float exponents
 }
 
-func (g *Gen) intn(n int) int { return g.r.Intn(n) }
+func (g *Gen) intn(n int) int        { return g.r.Intn(n) }
 func (g *Gen) chance(p float64) bool { return g.r.Float64() < p }
 
 func (g *Gen) mode() decimal.RoundingMode { return decimal.RoundingMode(g.intn(6)) }
